@@ -117,6 +117,19 @@ var c08Targets = []c08Target{
 	{"codec-j2k-lossless", "j2k", c08CodecRun(func() gdcodec.Codec { return j2kll.NewCodec() })},
 	{"codec-j2k-lossy", "j2k", c08CodecRun(func() gdcodec.Codec { return j2kly.NewCodec() })},
 	{"codec-htj2k", "j2k", c08CodecRun(func() gdcodec.Codec { return htj2k.NewLosslessCodec() })},
+	// same as rle-codec, answering the decoded frame (used by the rle-dec correspondence lines, which are
+	// computed in child processes too: a decoder that loops forever must not hang the harness)
+	{"rle-codec-hex", "rle", func(data []byte, fi [5]uint16) (string, error) {
+		c := rle.NewRLECodec()
+		src := codec.NewTestPixelData(c08FrameInfo(fi))
+		_ = src.AddFrame(data)
+		dst := codec.NewTestPixelData(c08FrameInfo(fi))
+		if err := c.Decode(src, dst, nil); err != nil {
+			return "", err
+		}
+		f, _ := dst.GetFrame(0)
+		return hx.Hex(f), nil
+	}},
 }
 
 func c08TargetIdx(name string) int {
@@ -1060,6 +1073,354 @@ func (b *c08Builder) randomPrefixed(seeds []c08Seed) {
 	}
 }
 
+// rleControls: PackBits control bytes at control positions — in particular the no-op 0x80 (a decoder that does not
+// advance on it loops forever: C09), runs that overshoot, and literal/repeat lengths around the segment end.
+func (b *c08Builder) rleControls(seeds []c08Seed) {
+	r := b.c.R
+	t := c08TargetIdx("rle-codec")
+	hdr := func(nseg int, body []byte) []byte {
+		h := make([]byte, 64)
+		h[0] = byte(nseg)
+		off := 64
+		per := len(body) / max(nseg, 1)
+		for k := 0; k < nseg && k < 15; k++ {
+			binary.LittleEndian.PutUint32(h[4+4*k:], uint32(off))
+			off += per
+		}
+		return append(h, body...)
+	}
+	bodies := [][]byte{
+		{0x80}, {0x80, 0x80}, {0x80, 0x00, 0x41}, {0x00, 0x41, 0x80}, {0x80, 0x80, 0x80, 0x80, 0x00, 0x07, 0x80},
+		{0xFF, 0x07, 0x80, 0xFF, 0x07}, {0x80, 0xFF, 0x07}, {0x01, 0x01, 0x02, 0x80, 0x01, 0x03, 0x04}, {0x81, 0x05}, {0x7F},
+		{0x80, 0x81}, {0x00, 0x80}, {0xFE, 0x80, 0x80}, {0x02, 0x80, 0x80, 0x80, 0x80},
+	}
+	for k := 0; k < 40; k++ {
+		n := r.Range(1, 12)
+		bd := make([]byte, n)
+		for i := range bd {
+			bd[i] = byte(r.Pick([]int{0x80, 0x80, 0x80, 0x00, 0x01, 0xFF, 0xFE, 0x7F, 0x81, int(r.U64() & 0xFF)}))
+		}
+		bodies = append(bodies, bd)
+	}
+	for _, bd := range bodies {
+		for _, fi := range [][5]uint16{{1, 1, 8, 1, 0}, {2, 2, 8, 1, 0}, {3, 1, 16, 1, 0}, {2, 1, 8, 3, 0}, {2, 2, 8, 3, 1}, {4, 4, 8, 1, 1}} {
+			nseg := (int((fi[2]-1)/8) + 1) * int(fi[3])
+			bb := bd
+			if nseg > 1 { // the same body for every segment
+				bb = nil
+				for k := 0; k < nseg; k++ {
+					bb = append(bb, bd...)
+				}
+			}
+			b.add(t, fi, hdr(nseg, bb), "rle-control-bytes", "-")
+		}
+	}
+	// 0x80 written over every body position of the encoder's own streams
+	for _, s := range seeds {
+		if s.Target != t {
+			continue
+		}
+		for p := 64; p < len(s.Data) && p < 64+48; p++ {
+			m := c08Clone(s.Data)
+			m[p] = 0x80
+			b.add(t, s.FI, m, "rle-control-bytes", s.Name)
+		}
+	}
+}
+
+// j2kCodingStyleSweep: EVERY value 0..255 at every Scod / SGcod / SPcod byte of the COD segment and every
+// Ccoc / Scoc / SPcoc byte of a COC segment of four representative streams (code-block exponents, decomposition
+// levels, style, transform and precinct bytes are one-byte fields whose guards are per-value) — in every tier.
+func (b *c08Builder) j2kCodingStyleSweep(seeds []c08Seed) {
+	want := map[string]bool{"j2k-8x8-l1": true, "j2k-16x16-prec": true, "j2k-8x8+main-coc": true, "j2k-8x8+tile-coc": true, "htj2k-ht-8x8": true, "j2k-8x8-rgb-rct": true}
+	for i := range seeds {
+		s := &seeds[i]
+		if !want[s.Name] {
+			continue
+		}
+		sc := c08ScanJ2K(s.Data)
+		for _, sg := range sc.Segs {
+			if (sg.Marker != 0x52 && sg.Marker != 0x53) || !sg.HasLen {
+				continue
+			}
+			end := min(sg.Off+2+sg.Len, len(s.Data))
+			for p := sg.Off + 4; p < end; p++ {
+				for v := 0; v < 256; v++ {
+					if byte(v) == s.Data[p] {
+						continue
+					}
+					m := c08Clone(s.Data)
+					m[p] = byte(v)
+					b.add(s.Target, s.FI, m, "j2k-coding-style-sweep", s.Name)
+				}
+			}
+			// the two code-block exponent bytes together: every value of one with a set of partner values (their
+			// sum is guarded too, and in uint8 arithmetic it wraps for 252..255)
+			pw := sg.Off + 10 // COD: Lcod(2) Scod SGcod(4) levels | cbw cbh
+			if sg.Marker == 0x53 {
+				pw = sg.Off + 7 // COC with a one-byte component index: Lcoc(2) Ccoc Scoc levels | cbw cbh
+			}
+			if pw+1 < end && (s.Name == "j2k-8x8-l1" || s.Name == "j2k-8x8+main-coc" || s.Name == "htj2k-ht-8x8" || b.c.Thorough()) {
+				partners := []int{0, 1, 2, 3, 4, 5, 6, 7, 8, 9, 10, 11, 12, 13, 16, 128, 250, 251, 252, 253, 254, 255}
+				for v := 0; v < 256; v++ {
+					for _, q := range partners {
+						for swap := 0; swap < 2; swap++ {
+							m := c08Clone(s.Data)
+							if swap == 0 {
+								m[pw], m[pw+1] = byte(v), byte(q)
+							} else {
+								m[pw], m[pw+1] = byte(q), byte(v)
+							}
+							b.add(s.Target, s.FI, m, "j2k-coding-style-sweep", s.Name)
+						}
+					}
+				}
+			}
+		}
+	}
+}
+
+// j2kGridOffsets: SIZ with a huge image offset on the reference grid and a matching extent, so that the declared image
+// (Xsiz−XOsiz)·(Ysiz−YOsiz)·Csiz stays as small as the corpus stream's while every grid coordinate is huge; tile origin
+// small or equal to the image origin, tile size covering the image or equal to the image extent.
+func (b *c08Builder) j2kGridOffsets(seeds []c08Seed) {
+	r := b.c.R
+	n := 0
+	for i := range seeds {
+		s := &seeds[i]
+		if c08Targets[s.Target].Family != "j2k" || s.Fixture || len(s.Data) < 42 || !bytes.HasPrefix(s.Data, []byte{0xFF, 0x4F, 0xFF, 0x51}) {
+			continue
+		}
+		if !b.c.Thorough() && (i+int(b.c.Seed))%8 != 0 && s.Name != "j2k-8x8-l1" && s.Name != "j2k-16x12-tiles8" {
+			continue
+		}
+		n++
+		xs, ys := int64(binary.BigEndian.Uint32(s.Data[8:])), int64(binary.BigEndian.Uint32(s.Data[12:]))
+		xt, yt := int64(binary.BigEndian.Uint32(s.Data[24:])), int64(binary.BigEndian.Uint32(s.Data[28:]))
+		offs := []int64{1, 255, 1 << 12, 1 << 14, 1 << 20, 1<<31 - 64}
+		if b.c.Thorough() {
+			offs = []int64{1, 7, 255, 1 << 10, 1 << 12, 1 << 14, 1 << 16, 1<<16 + 3, 1 << 20, 1 << 24, 1 << 28, 1<<31 - 64, 1<<32 - 1 - xs - ys}
+		}
+		for _, off := range offs {
+			if off < 0 {
+				continue
+			}
+			for variant := 0; variant < 5; variant++ {
+				m := c08Clone(s.Data)
+				xo, yo := off, off
+				if variant == 3 {
+					yo = 0
+				}
+				if variant == 4 {
+					xo = 0
+				}
+				put := func(o int, v int64) { binary.BigEndian.PutUint32(m[o:], uint32(v)) }
+				put(8, xo+xs)
+				put(12, yo+ys)
+				put(16, xo)
+				put(20, yo)
+				switch variant {
+				case 0: // one tile anchored at the grid origin, covering the image
+					put(24, xo+xs)
+					put(28, yo+ys)
+					put(32, 0)
+					put(36, 0)
+				case 1: // tile origin = image origin, tile size as in the corpus stream
+					put(24, xt)
+					put(28, yt)
+					put(32, xo)
+					put(36, yo)
+				case 2: // small tile origin, tile size as in the corpus stream (many tiles in front of the image)
+					put(24, xt)
+					put(28, yt)
+					put(32, int64(r.Intn(4)))
+					put(36, int64(r.Intn(4)))
+				default:
+					put(24, xo+xs)
+					put(28, yo+ys)
+					put(32, int64(r.Intn(2)))
+					put(36, int64(r.Intn(2)))
+				}
+				b.add(s.Target, s.FI, m, "j2k-grid-offset", s.Name)
+			}
+		}
+	}
+	b.c.CountN("j2k-grid-offset-base-streams", n)
+}
+
+// j2kPart2: coordinated edits of the Part-2 / private metadata the decoder indexes with AFTER the tiles are decoded:
+// MCC component ids (input and output lists edited together — the decoder only builds a binding when they agree),
+// a private COM "JP2MCT" inverse matrix with every rows x cols shape, a private COM "JP2ROI" region list.
+func (b *c08Builder) j2kPart2(seeds []c08Seed) {
+	r := b.c.R
+	be16 := func(v int) []byte { return []byte{byte(v >> 8), byte(v)} }
+	be32 := func(v int) []byte { return []byte{byte(v >> 24), byte(v >> 16), byte(v >> 8), byte(v)} }
+	for i := range seeds {
+		s := &seeds[i]
+		if c08Targets[s.Target].Family != "j2k" || s.Fixture {
+			continue
+		}
+		sc := c08ScanJ2K(s.Data)
+		// (1) MCC ids
+		for _, sg := range sc.Segs {
+			if sg.Marker != 0x75 || sg.Off+16 > len(s.Data) {
+				continue
+			}
+			p := sg.Off + 4 + 2 + 1 + 2 + 2 + 1 // Zmcc idx Ymcc Qmcc Xmcc
+			nin := int(s.Data[p])<<8 | int(s.Data[p+1])
+			wide := nin&0x8000 != 0
+			n := nin & 0x7fff
+			if wide || n == 0 || n > 8 || p+2+n+2+n+3 > len(s.Data) {
+				continue
+			}
+			inPos, outPos := p+2, p+2+n+2
+			nout := int(s.Data[inPos+n])<<8 | int(s.Data[inPos+n+1])
+			for _, v := range []int{n, n + 1, 5, 127, 128, 255} {
+				for k := 0; k < n; k++ {
+					m := c08Clone(s.Data)
+					m[inPos+k] = byte(v)
+					if nout == n {
+						m[outPos+k] = byte(v)
+					}
+					b.add(s.Target, s.FI, m, "j2k-mcc-component-ids", s.Name)
+				}
+				m := c08Clone(s.Data)
+				for k := 0; k < n; k++ {
+					m[inPos+k] = byte(v)
+					if nout == n {
+						m[outPos+k] = byte(v)
+					}
+				}
+				b.add(s.Target, s.FI, m, "j2k-mcc-component-ids", s.Name)
+			}
+			// no output list at all (Mmcci = 0): the decoder then takes the input ids
+			m := c08Clone(s.Data)
+			m[inPos+n], m[inPos+n+1] = 0, 0
+			b.add(s.Target, s.FI, m, "j2k-mcc-component-ids", s.Name)
+		}
+		// (2), (3): private COM segments in front of the first tile-part; every 3rd stream in quick
+		if !b.c.Thorough() && (i+int(b.c.Seed))%3 != 0 && s.Name != "j2k-8x8-rgb-rct" && s.Name != "j2k-8x8-l1" {
+			continue
+		}
+		ins := func(payload []byte, op string) {
+			seg := append([]byte{0xFF, 0x64}, be16(4+len(payload))...)
+			seg = append(seg, 0, 0)
+			seg = append(seg, payload...)
+			if m := c08J2KInsert(s.Data, seg, false); m != nil {
+				b.add(s.Target, s.FI, m, op, s.Name)
+			}
+		}
+		for _, rows := range []int{0, 1, 2, 3, 4, 5, 255} {
+			for _, cols := range []int{0, 1, 2, 3, 4, 255} {
+				pl := append([]byte("JP2MCT"), 1)
+				pl = append(pl, be16(rows)...)
+				pl = append(pl, be16(cols)...)
+				pl = append(pl, byte(r.Intn(2)))
+				for k := 0; k < rows*cols && k < 64; k++ {
+					pl = append(pl, 0x3f, 0x80, 0, 0)
+				}
+				ins(pl, "j2k-com-jp2mct")
+			}
+		}
+		for _, nreg := range []int{0, 1, 2, 3, 65535} {
+			for _, shape := range []int{0, 1, 2, 3} {
+				for _, comp := range []int{0, 1, 3, 200} {
+					pl := append([]byte("JP2ROI"), 1)
+					pl = append(pl, be16(nreg)...)
+					for k := 0; k < nreg && k < 3; k++ {
+						pl = append(pl, byte(shape), 1, byte(comp))
+						switch shape {
+						case 0:
+							for _, v := range []int{r.Pick([]int{0, 1, -1, 4}), r.Pick([]int{0, 2, 1 << 30}), r.Pick([]int{4, 8, 0, 1 << 31}), r.Pick([]int{4, 9, -5})} {
+								pl = append(pl, be32(v)...)
+							}
+						case 1:
+							np := r.Pick([]int{0, 1, 3, 4})
+							pl = append(pl, be16(np)...)
+							for q := 0; q < np; q++ {
+								pl = append(pl, be32(r.Intn(12)-2)...)
+								pl = append(pl, be32(r.Intn(12)-2)...)
+							}
+						case 2:
+							pl = append(pl, be32(r.Pick([]int{0, 8, 1 << 20}))...)
+							pl = append(pl, be32(r.Pick([]int{0, 8, 1 << 20}))...)
+						}
+					}
+					ins(pl, "j2k-com-jp2roi")
+				}
+			}
+		}
+	}
+}
+
+// jlsScans: hand-assembled JPEG-LS scans behind valid (and re-dimensioned) headers — no model covers the scan decoders.
+// All-zero initial context puts the decoder in run mode at once, so long runs of 1-bits (0xFF 0x7F…, 0xFE…) grow the
+// run length 1,1,1,1,2,2,2,2,4,… past the end of the line; for 3-component ILV=2 streams the overshoot is per pixel triple.
+func (b *c08Builder) jlsScans(seeds []c08Seed) {
+	r := b.c.R
+	scans := [][]byte{
+		{0xFF, 0x30}, {0xFF, 0x38}, {0xFF, 0x20}, {0xFF, 0x58}, {0xFF, 0x5C}, {0xFF, 0x4E}, {0xFF, 0x47}, {0xFF, 0x7F, 0xFF, 0x7F, 0xFF, 0x7F}, {0xFF, 0x7F}, {0xFE}, {0xFE, 0xFE, 0xFE, 0xFE}, {0xFC, 0x00}, {0xF0}, {0xFF, 0x00},
+		{0xFF, 0x7F, 0xFF, 0x7F, 0xFF, 0x7F, 0xFF, 0x7F, 0xFF, 0x7F, 0xFF, 0x7F, 0xFF, 0x7F, 0xFF, 0x7F}, {0x80}, {0xC0}, {0xE0, 0x00, 0x00},
+		{0xAA, 0xAA, 0xAA}, {0x7F, 0xFF, 0x7F}, {0xFF, 0x7E, 0xFF, 0x7D}, {0xFB, 0xFF, 0x7F, 0x00}, {}, {0x00}, {0x00, 0x00, 0x00, 0x00},
+	}
+	for k := 0; k < 24; k++ {
+		n := r.Range(1, 10)
+		sc := make([]byte, 0, 2*n)
+		for i := 0; i < n; i++ {
+			v := byte(r.Pick([]int{0xFF, 0xFF, 0xFE, 0xFC, 0xF8, 0xF0, 0x7F, 0x00, 0x01, int(r.U64() & 0xFF)}))
+			sc = append(sc, v)
+			if v == 0xFF {
+				sc = append(sc, byte(r.Intn(0x80)))
+			}
+		}
+		scans = append(scans, sc)
+	}
+	// widths 13/14 (8 one-bits: run 12, J=2), 17/18 (run 16), 29/30 (J=3) are where a 2^J-bit remainder can overshoot
+	dims := [][2]int{{13, 1}, {14, 2}, {1, 1}, {17, 1}, {2, 1}, {18, 2}, {4, 1}, {14, 1}, {5, 2}, {13, 3}, {8, 1}, {29, 1}, {2, 3}, {30, 2}, {9, 2}, {16, 1}, {1, 4}, {3, 1}, {6, 1}, {7, 2}, {10, 1}, {12, 1}, {15, 1}}
+	for i := range seeds {
+		s := &seeds[i]
+		tn := c08Targets[s.Target].Name
+		if tn != "jls-lossless" && tn != "jls-near" {
+			continue
+		}
+		sc := c08ScanJPEG(s.Data)
+		if len(sc.Ranges) == 0 {
+			continue
+		}
+		hdrEnd := sc.Ranges[0][1]
+		var sof int = -1
+		for _, sg := range sc.Segs {
+			if sg.Marker == 0xF7 {
+				sof = sg.Off
+			}
+		}
+		if sof < 0 || hdrEnd > len(s.Data) || sof+9 >= len(s.Data) {
+			continue
+		}
+		three := s.Data[sof+9] == 3
+		if !three && (i+int(b.c.Seed))%3 != 0 {
+			continue // every 3-component stream, a third of the single-component ones
+		}
+		for di, d := range dims {
+			if !b.c.Thorough() && ((!three && di%2 == 1) || (three && di >= 12 && (di+i)%3 != 0)) {
+				continue
+			}
+			for _, scn := range scans {
+				m := c08Clone(s.Data[:hdrEnd])
+				m[sof+5], m[sof+6] = byte(d[1]>>8), byte(d[1])
+				m[sof+7], m[sof+8] = byte(d[0]>>8), byte(d[0])
+				m = append(m, scn...)
+				if r.Intn(2) == 0 {
+					m = append(m, 0xFF, 0xD9)
+				}
+				for _, t := range []string{"jls-lossless", "jls-near"} {
+					b.add(c08TargetIdx(t), [5]uint16{uint16(d[0]), uint16(d[1]), s.FI[2], s.FI[3], 0}, m, "jls-scan-handmade", s.Name)
+				}
+			}
+		}
+	}
+}
+
 // c08RLEInfos: arbitrary frame descriptions for the RLE codec (zero and mismatching values included).
 func (b *c08Builder) rleInfos(seeds []c08Seed) {
 	c := b.c
@@ -1204,6 +1565,11 @@ func c08BuildJobs(c *hx.Ctx) []c08Job {
 	}
 	b.randomPrefixed(seeds)
 	b.rleInfos(seeds)
+	b.rleControls(seeds)
+	b.j2kCodingStyleSweep(seeds)
+	b.j2kGridOffsets(seeds)
+	b.j2kPart2(seeds)
+	b.jlsScans(seeds)
 	if only := os.Getenv("C08_ONLY"); only != "" { // analysis aid: restrict to some entry points
 		var js []c08Job
 		for _, j := range b.jobs {
